@@ -8,14 +8,3 @@ impl RwsDisp for i64 {
     #[verifier::external_body]
     fn rws_disp(&self) -> String { self.to_string() }
 }
-// String::eq(&str)
-pub trait RwsEq {
-    spec fn sv8(&self) -> Seq<char>;
-    fn rws_eq(&self, o: &str) -> (r: bool)
-        ensures r == (self.sv8() == o@);
-}
-impl RwsEq for String {
-    open spec fn sv8(&self) -> Seq<char> { self@ }
-    #[verifier::external_body]
-    fn rws_eq(&self, o: &str) -> bool { self.eq(o) }
-}
